@@ -16,8 +16,74 @@ let bytes_of_hex s = List.map n_of_int (ints_of_hex s)
 let hex_of_bytes l = hex_of_ints (List.map int_of_n l)
 let byteslist_of s = List.map (fun l -> List.map n_of_int l) (hexlist s)
 
+(* ---- message specs (kind "render" / "renderlen"), see harness/bytex/spec.go ---- *)
+let split2 c s = match String.index_opt s c with
+  | Some i -> (String.sub s 0 i, String.sub s (i+1) (String.length s - i - 1))
+  | None -> (s, "")
+let fields s = split_on ':' s
+let enc_of s = M.enc_of_name (List.map n_of_int (List.init (String.length s) (fun i -> Char.code s.[i])))
+let prod_of chunks fail = { M.pchunks = byteslist_of chunks; M.pfail = (fail = "1") }
+let kvlist s = (* khex=vhex&khex=vhex *)
+  if s = "-" then [] else List.map (fun kv -> let (k, v) = split2 '=' kv in (bytes_of_hex k, bytes_of_hex v)) (split_on '&' s)
+
+let parse_msg (spec : string) =
+  let wenc = ref 113 and charset = ref [] and gen = ref [] and pre = ref [] and from = ref None
+  and addr = ref [] and parts = ref [] and embeds = ref [] and attach = ref []
+  and bm = ref [] and br = ref [] and ba = ref [] and date = ref [] and msgid = ref [] and rb = ref [] in
+  List.iter (fun item ->
+    if String.length item > 0 then begin
+      let tag = item.[0] and body = String.sub item 1 (String.length item - 1) in
+      match tag with
+      | 'W' -> wenc := (if body = "b" then 98 else 113)
+      | 'C' -> charset := bytes_of_hex body
+      | 'G' -> let (k, v) = split2 '=' body in gen := !gen @ [(bytes_of_hex k, byteslist_of v)]
+      | 'R' -> let (k, v) = split2 '=' body in pre := !pre @ [(bytes_of_hex k, bytes_of_hex v)]
+      | 'F' -> from := Some (bytes_of_hex body)
+      | 'A' -> let (k, v) = split2 '=' body in addr := !addr @ [(bytes_of_hex k, byteslist_of v)]
+      | 'P' -> (match fields body with
+                | [ct; en; cs; de; ch; fl] ->
+                    parts := !parts @ [{ M.p_ctype = bytes_of_hex ct; M.p_charset = bytes_of_hex cs; M.p_enc = enc_of en;
+                                          M.p_desc = bytes_of_hex de; M.p_prod = prod_of ch fl }]
+                | _ -> failwith "bad P item")
+      | 'E' | 'T' -> (match fields body with
+                | [nm; mi; en; de; hd; ch; fl] ->
+                    let f = { M.f_name = bytes_of_hex nm; M.f_mime = bytes_of_hex mi;
+                              M.f_enc = (if en = "-" then None else Some (enc_of en));
+                              M.f_desc = bytes_of_hex de; M.f_hdr = kvlist hd; M.f_prod = prod_of ch fl } in
+                    if tag = 'E' then embeds := !embeds @ [f] else attach := !attach @ [f]
+                | _ -> failwith "bad file item")
+      | 'B' -> (match split_on ',' body with
+                | [a; b; c] -> bm := bytes_of_hex a; br := bytes_of_hex b; ba := bytes_of_hex c
+                | _ -> failwith "bad B item")
+      | 'D' -> date := bytes_of_hex body
+      | 'I' -> msgid := bytes_of_hex body
+      | 'N' -> rb := byteslist_of body
+      | _ -> failwith "bad item tag"
+    end) (split_on ';' spec);
+  ({ M.m_charset = !charset; M.m_wenc = n_of_int !wenc; M.m_gen = !gen; M.m_preform = !pre; M.m_from = !from;
+     M.m_addr = !addr; M.m_parts = !parts; M.m_embeds = !embeds; M.m_attach = !attach;
+     M.m_bmixed = !bm; M.m_brelated = !br; M.m_balt = !ba }, !date, !msgid, !rb)
+
+let parse_sink (s : string) =
+  if s = "inf" then M.unlimited
+  else let k = int_of_string (String.sub s 1 (String.length s - 1)) in
+       M.fail_at (nat_of_int k) (s.[0] = 'r')
+
+let render_result spec sink =
+  let (m, date, msgid, rb) = parse_msg spec in
+  M.write_to date msgid rb m (parse_sink sink)
+
+let result_class (r : M.result) = if r.M.r_panic then "panic" else if r.M.r_err then "err" else "ok"
+
 let run (toks : string list) : string =
   match toks with
+  | "render" :: spec :: sink :: _ ->
+      let r = render_result spec sink in
+      Printf.sprintf "%s %d %s" (result_class r) (int_of_nat r.M.r_n) (hex_of_bytes r.M.r_out)
+  | "renderlen" :: spec :: sink :: _ ->
+      let r = render_result spec sink in
+      Printf.sprintf "%s %d %d" (result_class r) (int_of_nat r.M.r_n) (List.length r.M.r_out)
+  | ["wordenc"; e; s] -> hex_of_bytes (M.word_encode (n_of_int (if e = "b" then 98 else 113)) (bytes_of_hex s))
   | ["b64"; chunks] | ["b64f"; chunks] ->
       (match M.b64_body (List.concat (byteslist_of chunks)) with
        | Some o -> hex_of_bytes o | None -> "OUTOFFUEL")
